@@ -273,6 +273,8 @@ impl Prop for C05 {
         for s in HAND_WRITTEN {
             out.push("reset".into());
             out.push(format!("parse {}", shex(s)));
+            out.push(format!("parsenr {}", shex(s)));
+            out.push(format!("elem {}", shex(s)));
         }
         // token length limit: 255 / 256 / 257 bytes, ASCII and multi-byte
         for k in [253usize, 254, 255, 256] {
@@ -301,6 +303,13 @@ impl Prop for C05 {
                         s = mutate(rng, &s);
                     }
                     out.push(format!("parse {}", shex(&s)));
+                    // the same text through the two other public entry points
+                    if rng.chance(1, 3) {
+                        out.push(format!("parsenr {}", shex(&s)));
+                    }
+                    if rng.chance(1, 3) {
+                        out.push(format!("elem {}", shex(&s)));
+                    }
                 }
             }
         }
@@ -343,6 +352,23 @@ impl Runner for R {
                         format!("ok p={} r=err", shex(&printed)),
                         if outside { Verdict::Ok } else { Verdict::fail("roundtrip", &class, format!("{:?} does not parse", printed)) },
                     ),
+                }
+            }
+            ["parsenr", s] => {
+                let Some(s) = sunhex(s) else { return bad() };
+                let none = |_: u16, _: &str| -> Option<NodeId> { None };
+                match catch_unwind(AssertUnwindSafe(|| RelativePath::from_str(&s, &none))) {
+                    Err(_) => ("panic".into(), Verdict::fail("no_panic", "parsenr", format!("parsing {:?} panicked", s))),
+                    Ok(Ok(q)) => (format!("ok {}", path_out(&q)), Verdict::Ok),
+                    Ok(Err(_)) => ("err".into(), Verdict::Ok),
+                }
+            }
+            ["elem", s] => {
+                let Some(s) = sunhex(s) else { return bad() };
+                match catch_unwind(AssertUnwindSafe(|| RelativePathElement::from_str(&s, &RelativePathElement::default_node_resolver))) {
+                    Err(_) => ("panic".into(), Verdict::fail("no_panic", "elem", format!("parsing {:?} panicked", s))),
+                    Ok(Ok(e)) => (format!("ok {}", tree_out(&elem_tree(&e))), Verdict::Ok),
+                    Ok(Err(_)) => ("err".into(), Verdict::Ok),
                 }
             }
             ["parse", s] => {
